@@ -10,4 +10,7 @@ CONSTANTS
   EqualNames = TRUE
   SanitiseDots = TRUE
   Reserve = FALSE
+  AllowAbort = FALSE
+  ForeignRelease = FALSE
+  OrderedArrival = FALSE
 CHECK_DEADLOCK FALSE
